@@ -66,8 +66,14 @@ Theorem tables_total_dispatch :
   snd lay_0002 = [] /\ snd lay_8104 = [] /\ snd lay_9003 = [].
 Proof. repeat split; reflexivity. Qed.
 
-(* parseParam's switch in source order = the tests of param_store in their order *)
-Theorem tables_total_param_cases :
-  gen_param_cases =
+(* parseParam's switch = the tests of param_store, as a finite map from parameter id to wire kind (the cases of a Go
+   switch over distinct constants are order-independent: regrouping or reordering case clauses changes nothing, so
+   the comparison is by id, not by position): every id either table mentions has the same kind in both *)
+Definition param_kind_of (id : N) (l : list (N * list N)) : N :=
+  match find (fun c => existsb (N.eqb id) (snd c)) l with Some c => fst c | None => 0 end.
+Definition expected_param_cases : list (N * list N) :=
   [(1, param_dword); (2, param_word); (4, param_text); (5, [50]); (3, param_byte); (6, [272])].
-Proof. reflexivity. Qed.
+Theorem tables_total_param_cases :
+  forallb (fun id => param_kind_of id gen_param_cases =? param_kind_of id expected_param_cases)
+          (flat_map snd gen_param_cases ++ flat_map snd expected_param_cases) = true.
+Proof. vm_compute. reflexivity. Qed.
